@@ -690,6 +690,9 @@ def if_calls_rule(run, quick):
                     y = rng.choice([x, inner(), rng.choice(XS)])
                 page = "{{#ifeq:" + "|".join([x, y] + [branch() for _ in range(rng.randint(0, 3))]) + "}}"
             else:
+                if rng.random() < 0.3:
+                    # calls in the subject (c04_switch_with_calls_in_its_subject): compared after expansion
+                    x = rng.choice(["", " "]) + inner() + rng.choice(["", " "])
                 page = "{{#switch:" + "|".join([x] + [rng.choice(KEYS) + "=" + branch() for _ in range(rng.randint(0, 4))]) + "}}"
             cases.append({"lib": libn, "page": page, "opts": {}, "title": "Tt"})
         res = lib.run_impl("expandlib", cases, shards=lib.NCPU)
@@ -701,7 +704,7 @@ def if_calls_rule(run, quick):
                 run.property_failure("%scalls:%s:%s" % (kind, r.get("outcome"), r.get("exc", "")), "expand() did not return normally: %r" % (r,), c)
                 continue
             pa = r["page_ast"]
-            if len(pa) != 1 or isinstance(pa[0], int) or pa[0][0] != "T" or (kind == "switch" and any(not isinstance(y, int) for y in pa[0][1][0])) \
+            if len(pa) != 1 or isinstance(pa[0], int) or pa[0][0] != "T" \
                     or pa[0][1][0][:len(head)] != head or (kind == "switch" and any(61 not in a for a in pa[0][1][1:])):
                 run.correspondence_break("a generated #%s call was not read as one call (with keyed cases)" % kind, c, page_ast=pa)
                 continue
@@ -716,8 +719,8 @@ def if_calls_rule(run, quick):
         if kind == "ifeq":
             ty, okfn, resfn = "list tpl * enc * list enc * str", "ifeq_full_ok parser_functions l c m", "ifeq_full_result l c m"
         else:
-            ty, okfn = "list tpl * enc * list (enc * enc) * str", "plain c && forallb (case_calls_ok parser_functions l) m"
-            resfn = "add_newline (switch_calls_result l (strip_i c) m None)"
+            ty, okfn = "list tpl * enc * list (enc * enc) * str", "forallb (flat_item parser_functions l) c && forallb (case_calls_ok parser_functions l) m"
+            resfn = "add_newline (switch_calls_result l (strip_i (page_result l c)) m None)"
         outside, errs = lib.coq_eval_failing("c04u0" + kind[0], imports, ty, coq_cases, "fun '(l, c, m, o) => %s" % okfn, chunk=300)
         for e in errs:
             run.correspondence_break("model evaluation failed (#%s with calls)" % kind, None, error=e)
